@@ -6,6 +6,7 @@ and is run by the same check.
 """
 from __future__ import annotations
 
+import os
 from typing import Any, Dict, List
 
 from .. import ctl, programs, runner
@@ -217,11 +218,80 @@ def run_check(tier: str, seed: int, workers: Any) -> Dict[str, Any]:
                             bounds={'K': n2, 'placements': 'quiescent points only'}, describe=describe_unit)])
     for v in part4['violations']:
         v['features'] = dict(v.get('features', {}), part='burst')
-    return runner.merge([part1, part2, part3, part4])
+    out = runner.merge([part1, part2, part3, part4])
+    from ..explore import guarded_part
+    part5 = guarded_part(lambda: check_sequel(tier, workers), 600, {'part': 'sequel'})
+    out['violations'].extend(part5['violations'])
+    for key in ('evaluations', 'traces_validated_against_impl', 'transitions'):
+        out['coverage'][key] += part5['n']
+    out['coverage']['sequel_pairs'] = part5['n']
+    out['coverage']['rule'] += (' || (v) every burst history of <=3 pause / play / resume requests of a first process followed, in '
+                                'the same (fresh) interpreter, by every burst history of <=2 requests of a second process of the '
+                                'class: the second is observed exactly as after no earlier process')
+    return out
+
+
+SEQ_ALPHABET = (('resume', 'v1'), ('pause',), ('play',))
+
+
+def cfg_sequel(unit: Any) -> ctl.Config:
+    return ctl.Config(alphabet=SEQ_ALPHABET, closing=('gates', 'play_if_asked', 'resume_if_none'), resume_default=('dflt',),
+                      burst=True, early_gates=False)
+
+
+def sequel_factory() -> CtlProperty:
+    return CtlProperty(ID, Oracle, cfg_sequel)
+
+
+def _burst_histories(unit: Any, k: int, without: tuple = ()) -> List[List[int]]:
+    from ..explore import dfs
+    found: List[List[int]] = []
+
+    def keep(ch: Any, res: Any) -> None:
+        if not any(lab[0] in without for c, lab in zip(ch.choices, ch.labels) if c):
+            found.append(list(ch.choices))
+
+    dfs(sequel_factory().make_run(unit), {'K': k}, on_result=keep)
+    return sorted(found, key=lambda c: (sum(1 for x in c if x), c))
+
+
+def check_sequel(tier: str, workers: Any, only: Any = None) -> Dict[str, Any]:
+    """Part (v): what a waiting process does with its wake-ups does not depend on the processes that ran before it in the same
+    interpreter.  Every burst history of <=3 requests (pause / play / resume) of a first process, followed - in the same
+    interpreter - by every burst history of <=2 pause / play requests of a second process of the same class: the second one must be
+    observed exactly as after no earlier process.  Each (first, second) pair runs in a fresh interpreter."""
+    from concurrent.futures import ThreadPoolExecutor
+    from .. import sequel
+    unit = ((('S', (), 'wait'), ('S', (), 'ret')), None)
+    out: Dict[str, Any] = {'n': 0, 'violations': []}
+    firsts = _burst_histories(unit, 3 if tier == 'quick' else 4)
+    seconds = _burst_histories(unit, 2, without=('resume',))  # the second process is only paused and played: it must wait
+    if only is not None:
+        firsts, seconds = [only[0]], [only[1]]
+    then = [[unit, h2] for h2 in seconds]
+    ref = sequel.ask('pv.props.c06', 'sequel_factory', None, then)
+
+    def one(h1: List[int]) -> Any:
+        return h1, sequel.ask('pv.props.c06', 'sequel_factory', [unit, h1], then)
+
+    with ThreadPoolExecutor(max_workers=workers or min(16, os.cpu_count() or 1)) as pool:
+        for h1, got in pool.map(one, firsts):
+            for h2, a, b in zip(seconds, ref, got):
+                out['n'] += 1
+                if a != b:
+                    out['violations'].append({
+                        'clause': 'depends-on-an-earlier-process', 'features': {'part': 'sequel'},
+                        'detail': {'after_nothing': a, 'after_the_first_process': b},
+                        'case': {'part': 'sequel', 'first': h1, 'second': h2}})
+    out['violations'] = sorted(out['violations'], key=lambda v: (len(v['case']['first']) + len(v['case']['second']),
+                                                                  v['case']['first'], v['case']['second']))[:3]
+    return out
 
 
 def replay(doc: Dict[str, Any]) -> List[Dict[str, Any]]:
     from ._common import is_wc_unit
+    if (doc.get('case') or {}).get('part') == 'sequel':
+        return check_sequel('quick', 2, only=(doc['case']['first'], doc['case']['second']))['violations']
     if is_wc_unit(doc.get('unit')):
         return wc_factory().replay(doc)
     if (doc.get('features') or {}).get('part') == 'kill-withdrawn':
